@@ -434,7 +434,7 @@ func genSoft() {
 		last := k == nOut-1
 		if q := rem / unit / uint64(nOut-k); !last && q > 0 {
 			c = (1 + uint64(rng.Int63n(int64(q)))) * unit
-			hh = uint64(rng.Int63n(int64(remH/uint64(nOut-k) + 1)))
+			hh = rng.Uint64() % (remH/uint64(nOut-k) + 1) // remH may be near 2^64
 		} else {
 			last = true
 		}
